@@ -318,4 +318,9 @@ def register(_reg, _mt, STD):  # noqa: ANN001
     _extend('C16', [round5.rule_field_settings_copied])
     _extend('C14', [round5.rule_field_keyword_receivers])
     _extend('C03', [round5.rule_field_keyword_receivers])
+    _extend('C04', [round5.rule_callable_name_has_fallback])
+    _extend('C13', [round5.rule_callable_name_has_fallback])
+    _extend('C16', [round5.rule_record_holds_fields])
+    _extend('C12', [round5.rule_internal_layout_writes_tag_key])
+    _extend('C05', [round5.rule_internal_layout_writes_tag_key])
     _extend('C20', [rename.rule_c20_r6, rename.rule_c20_r7, round5.rule_style_guard_agrees])
